@@ -5,8 +5,8 @@ CONSTANTS
   MaxAtt = 2
   Weak = {}
   AVals = {"good", "zero", "N", "missing", "replay"}
-  Proofs = {"right", "wrong", "missing"}
-  Seals = {"this", "other", "zero", "random"}
+  Proofs = {"right", "wrong", "missing", "nilkey"}
+  Seals = {"this", "other", "zero", "random", "nilkey"}
   Bodies = {"genuine", "badsig", "mismatch", "badtlv"}
   Shapes = {"ok", "tagflip", "ctflip", "short", "empty"}
 INVARIANTS TypeOK KeyNeedsProof
